@@ -11,7 +11,14 @@ def main() -> int:
         print("selfcheck failed:", r.get("status"), r.get("error"), r.get("tb"))
         return 2
     print("selfcheck ok:", r["result"])
-    return 0
+    # short determinism self-test: same seed forked twice (different worker counts) and exec'ed must agree
+    import subprocess
+
+    from dst.pool import PYTHON, VERIF_ROOT
+
+    p = subprocess.run([PYTHON, "-m", "checks.selftest", "--n", "16", "--execs", "4"], cwd=VERIF_ROOT, env={**__import__("os").environ, "PYTHONPATH": VERIF_ROOT}, capture_output=True, text=True)
+    print(p.stdout[-600:])
+    return 0 if p.returncode == 0 else 2
 
 
 def probe(args):
